@@ -86,6 +86,31 @@ def job(j):
         if d2: bad.append('-ra image: files differ: %s' % d2[:4])
         miss = [b for b in sorted(M) if x[b * bs:(b + 1) * bs] != data[b * bs:(b + 1) * bs]]
         if miss: bad.append('-ra image differs from the source on primary metadata blocks %s' % miss[:8])
+    # the same onto an output file that already exists and holds other data (raw output is opened without truncation: every block of the image, all-zero
+    # ones included, has to be written then)
+    pre = os.path.join(d, 'pre.img')
+    # (e2image documents that it leaves out what the descriptors declare unused: the never-used tail of an inode table, the tables and bitmaps of uninitialised
+    # groups; in a fresh image those are holes, i.e. zeros like the source, here they keep what the file held)
+    M = set(M)
+    if im.has_gdt_csum or im.has_csum:
+        ipb = bs // im.inode_size
+        for g in range(im.groups):
+            gd = im.gd[g]
+            if gd.bg_flags & 1: M -= set(range(gd.inode_table, gd.inode_table + im.itb_per_group)) | {gd.inode_bitmap}
+            else: M -= set(range(gd.inode_table + im.itb_per_group - min(gd.itable_unused // ipb, im.itb_per_group), gd.inode_table + im.itb_per_group))
+            if gd.bg_flags & 2: M -= {gd.block_bitmap}
+    for mode in ('-r', '-ra'):
+        with open(pre, 'wb') as f: f.write(b'\xee' * len(data))
+        rc, out = run([E2IMAGE, mode, p, pre], timeout=60); n += 1; unchanged('e2image %s onto an existing file' % mode)
+        if rc != 0: bad.append('e2image %s onto an existing file: exit %s: %s' % (mode, rc, out[-200:])); continue
+        x = open(pre, 'rb').read()
+        miss = [b for b in sorted(M) if x[b * bs:(b + 1) * bs] != data[b * bs:(b + 1) * bs]]
+        if miss: bad.append('e2image %s onto an existing file: metadata blocks %s differ from the source' % (mode, miss[:8]))
+        if mode == '-ra' and not miss:
+            try: d3 = xtree.diff(t0, xtree.tree(Image(x)))
+            except Exception as e: d3 = ['not readable: %r' % e]
+            if d3: bad.append('e2image -ra onto an existing file: files differ: %s' % d3[:4])
+    if os.path.exists(pre): os.unlink(pre)
     return (cid, 'bad' if bad else 'ok', bad, n)
 
 def data_extents(path):
